@@ -607,6 +607,26 @@ pub fn solve_pinned(t: &Tree, meth: &str, par: Option<&Value>, budget: u64, max_
         }
         verif::set_draw_seed(Some(seed));
         let res = game.solve(method(&meth), budget, max_reg, threads, par.as_ref().and_then(|p| params_opt(p, budget as i64 + threads as i64)));
+        // the same call once more on the same Game object (one thread: bitwise the same result - a Game carries no
+        // state from one solve to the next)
+        if threads == 1 {
+            if !draws.is_empty() {
+                verif::set_draw_table(Some(draw_table(&draws, &meth, &t2, &dump)));
+            }
+            verif::set_draw_seed(Some(seed));
+            let again = game.solve(method(&meth), budget, max_reg, threads, par.as_ref().and_then(|p| params_opt(p, budget as i64 + threads as i64)));
+            if let (Ok((s1, b1)), Ok((s2, b2))) = (&res, &again) {
+                let same = s1.verif_dense() == s2.verif_dense()
+                    && [PlayerNum::One, PlayerNum::Two].iter().all(|p| b1.player_regret_bound(*p).to_bits() == b2.player_regret_bound(*p).to_bits());
+                if !same {
+                    verif::reset();
+                    return Err("solve called twice on one Game returned two different results".to_string());
+                }
+            } else if res.is_ok() != again.is_ok() {
+                verif::reset();
+                return Err("solve called twice on one Game: one call failed, the other did not".to_string());
+            }
+        }
         verif::reset();
         let (strat, bound) = res.map_err(|e| format!("solve: {e:?}"))?;
         let info = strat.get_info();
